@@ -10,7 +10,7 @@
 (***************************************************************************)
 EXTENDS ConfigLoad, Json
 
-CONSTANTS Rec,          \* "pool" | "config"
+CONSTANTS Rec,          \* "pool" | "config" | "speaker" (ConfigReconciler with the native-mode validator and the real speaker as consumer)
           U,            \* universe of objects
           InitPresent,
           Pin,          \* harness-only: how many of pa, pb, pc are pinned to namespace ns1
@@ -30,11 +30,14 @@ Init == /\ present = InitPresent
         /\ nops = 0
         /\ PrintT(ToJson([init |-> StateRec(present, ver, cur), rec |-> Rec, pin |-> Pin]))
 
+(* the native-mode validator refuses a snapshot with a BFD profile: nothing is applied *)
+Rejected(p) == Rec = "speaker" /\ "bfd" \in p
+
 Reconcile(p2, v2, a) ==
   LET new == Value(Rec, p2, v2) IN
   /\ present' = p2 /\ ver' = v2
-  /\ cur' = new
-  /\ act' = [a EXCEPT !.called = (new # cur)]
+  /\ cur' = IF Rejected(p2) THEN cur ELSE new
+  /\ act' = [a EXCEPT !.called = (~Rejected(p2) /\ new # cur)]
 
 Toggle(o) == Reconcile(IF o \in present THEN present \ {o} ELSE present \cup {o}, ver,
                        [op |-> IF o \in present THEN "del" ELSE "add", o |-> o, called |-> FALSE])
@@ -53,12 +56,12 @@ Spec == Init /\ [][Next]_vars
 Emit == PrintT(ToJson([pre |-> StateRec(present, ver, cur), act |-> act', post |-> StateRec(present', ver', cur'), n |-> nops]))
 
 (* Role A *)
-InvApplied == cur = Value(Rec, present, ver)
+InvApplied == ~Rejected(present) => cur = Value(Rec, present, ver)
 (* the handler runs iff the order-free value changed: in particular never   *)
 (* for a secret, a foreign config map, an unreferenced community, a plain   *)
 (* namespace, a node annotation, or nothing                                 *)
 NoSpuriousReload ==
-  [][act'.called <=> Value(Rec, present', ver') # Value(Rec, present, ver)]_vars
+  [][act'.called <=> (~Rejected(present') /\ Value(Rec, present', ver') # cur)]_vars
 UnrelatedNeverReloads ==
   [][(act'.op = "nop" \/ act'.o \in {"sec", "cm", "com", "nsx"} \/ (act'.op = "mod" /\ act'.o = "n1")) => ~act'.called]_vars
 =============================================================================
